@@ -40,6 +40,15 @@ Lemma index_start_z_unf v z :
   index_start_z v z =
   match vn_loc v with
   | WArr st _ isz cnt _ _ =>
+      if ((z <? 0) || (Z.of_nat cnt <=? z))%Z then Err IndexError else Ok (Z.of_nat st + Z.of_nat isz * z)%Z
+  | _ => Err TypeError
+  end.
+Proof. reflexivity. Qed.
+(* the same with the tests of the source before fix 08e8809: no test against 0 *)
+Lemma index_start_old_unf v z :
+  index_start_with None (Some LayoutRule.CmpGe) v z =
+  match vn_loc v with
+  | WArr st _ isz cnt _ _ =>
       if (Z.of_nat cnt <=? z)%Z then Err IndexError else Ok (Z.of_nat st + Z.of_nat isz * z)%Z
   | _ => Err TypeError
   end.
@@ -935,14 +944,39 @@ Section Value.
     index_start_z v (Z.of_nat i) = Ok (Z.of_nat (st + isz * i)).
   Proof.
     intros v st sz isz cnt it sch i Hl Hi. rewrite index_start_z_unf. rewrite Hl.
+    destruct (Z.of_nat i <? 0)%Z eqn:E0; [apply Z.ltb_lt in E0; lia|]. cbn [orb].
     destruct (Z.of_nat cnt <=? Z.of_nat i)%Z eqn:E; [apply Z.leb_le in E; lia|]. f_equal. lia.
   Qed.
 
-  Lemma index_start_negative : forall (v : vnav) st sz isz cnt it sch z,
+  (* every negative index is refused, whatever the table (fix 08e8809) *)
+  Lemma index_negative_refused : forall (v : vnav) st sz isz cnt it sch z,
     vn_loc v = WArr st sz isz cnt it sch -> (z < 0)%Z ->
-    index_start_z v z = Ok (Z.of_nat st + Z.of_nat isz * z)%Z.
+    index_start_z v z = Err IndexError.
   Proof.
     intros v st sz isz cnt it sch z Hl Hz. rewrite index_start_z_unf. rewrite Hl.
+    apply Z.ltb_lt in Hz. rewrite Hz. reflexivity.
+  Qed.
+
+  (* an index is accepted exactly when 0 <= z < item_count *)
+  Lemma index_accepted_iff : forall (v : vnav) st sz isz cnt it sch z,
+    vn_loc v = WArr st sz isz cnt it sch ->
+    (index_start_z v z <> Err IndexError <-> (0 <= z < Z.of_nat cnt)%Z).
+  Proof.
+    intros v st sz isz cnt it sch z Hl. rewrite index_start_z_unf. rewrite Hl.
+    destruct (z <? 0)%Z eqn:E0; [apply Z.ltb_lt in E0|apply Z.ltb_ge in E0]; cbn [orb].
+    - split; [intros H; now elim H|lia].
+    - destruct (Z.of_nat cnt <=? z)%Z eqn:E; [apply Z.leb_le in E|apply Z.leb_gt in E].
+      + split; [intros H; now elim H|lia].
+      + split; [lia|discriminate].
+  Qed.
+
+  (* what the fix repaired: with the single test index >= item_count of the original source a negative index is
+     NOT refused, and the occurrence is walked from a start before the table *)
+  Lemma index_start_old_negative : forall (v : vnav) st sz isz cnt it sch z,
+    vn_loc v = WArr st sz isz cnt it sch -> (z < 0)%Z ->
+    index_start_with None (Some LayoutRule.CmpGe) v z = Ok (Z.of_nat st + Z.of_nat isz * z)%Z.
+  Proof.
+    intros v st sz isz cnt it sch z Hl Hz. rewrite index_start_old_unf. rewrite Hl.
     destruct (Z.of_nat cnt <=? z)%Z eqn:E; [apply Z.leb_le in E; lia|]. reflexivity.
   Qed.
 
